@@ -49,6 +49,15 @@ Theorem C08_clean_is_hygiene : forall p o, clean p o <-> (clean_by_facts p o /\ 
 Proof. exact clean_iff_facts. Qed.
 Print Assumptions C08_clean_is_hygiene.
 
+(* in every function of zap that holds a pooled buffer (regenerated event order): once freed the
+   buffer is never used, freed or returned again, and a buffer that is not freed is returned *)
+Theorem C08_ownership_facts : forall f, In f own_facts ->
+  (forall pre post, of_events f = (pre ++ BFree :: post)%list ->
+     ~ In BUse post /\ ~ In BFree post /\ ~ In BRet post) /\
+  (In BFree (of_events f) \/ In BRet (of_events f)).
+Proof. exact own_discipline. Qed.
+Print Assumptions C08_ownership_facts.
+
 (* ---- non-interference ---- *)
 
 (* rely/guarantee form: every operation (Core.Write with the JSON or console encoder, With,
